@@ -45,7 +45,7 @@ def family(pid, tier, seed):
     elif pid == "C02":
         gs = leak_family(rng, quick)
         # attempts abandoned because user code failed part-way
-        gs += [g for g in curated_core(rng, with_tokens=False) if g["id"] in ("x9", "x10")]
+        gs += [g for g in curated_core(rng, with_tokens=False) if g["id"] in ("x9", "x10", "x2", "x11")]
     elif pid == "C10":
         n, bases, resp = (20, 40, 6) if quick else (100, 100, 10)
         for i in range(n):
@@ -83,7 +83,7 @@ def family(pid, tier, seed):
         for g in curated_core(rng, with_tokens=True):
             if g["id"] == "b0":
                 continue   # (loops that spin to the iteration limit: exercised by C01 with its own inputs)
-            if g["id"] in ("x0", "x1", "x8"):
+            if g["id"] in ("x0", "x1", "x8", "x11", "x12"):
                 g["explicit"] = True   # they name an elided type: judged against the meaning, with the inputs they come with
                 gs.append(g)
                 continue
@@ -119,7 +119,7 @@ def family(pid, tier, seed):
             GG.exhaustive_inputs(g, exh, seen)
             GG.random_inputs(g, rng, rnd, 9, seen)
             gs.append(g)
-        gs += [g for g in curated_core(rng, with_tokens=False) if g["id"] in ("u0", "u1", "x2", "x3", "x6", "x7", "x9", "x10")]
+        gs += [g for g in curated_core(rng, with_tokens=False) if g["id"] in ("u0", "u1", "x2", "x3", "x6", "x7", "x9", "x10", "x11")]
         # the same production tried at two raw positions that differ only by an explicitly consumed elided token (equal
         # non-elided cursors), first failing and then matching
         cap = lambda f, fk, kid: {"op": "cap", "f": f, "fk": fk, "kid": kid}
@@ -246,6 +246,13 @@ def curated_core(rng, with_tokens=True):
                                  [F("W", "unode3"), F("N", "strings"), F("R", "strings")])], ks=(0, 1, 2, -1, -3)))
     gs.append(mk_grammar("x10", [("P0", seq(grp("opt", cap("W", "unode3", {"op": "user3"})), grp("star", cap("R", "strings", grp("once", alt(ref("Ident"), lit("!"), ref("Int")))))),
                                   [F("W", "unode3"), F("R", "strings")])], ks=(0, 1, 2, -1)))
+    # alternatives that begin by matching an explicitly named ELIDED token and fail before any ordinary token: the next
+    # alternative starts from the choice point again (raw cursor and capture start included)
+    gs.append(mk_grammar("x11", [("P0", seq(grp("once", alt(seq(cap("C", "string", ref("Comment")), lit("x"), cap("A", "string", ref("Ident"))), seq(ref("Comment"), cap("B", "string", ref("Ident"))), cap("B", "string", ref("Int")))),
+                                            grp("opt", lit("!"))), [F("C", "string"), F("A", "string"), F("B", "string")])], ks=(0, 1, 2, -1)))
+    if with_tokens:
+        gs.append(mk_grammar("x12", [("P0", seq(cap("T", "token", grp("once", alt(seq(ref("Comment"), lit("x")), ref("Ident")))), grp("star", cap("R", "tokens", grp("once", alt(seq(ref("Comment"), lit("(")), ref("Ident")))))),
+                                      [F("T", "token"), F("R", "tokens")])], ks=(0, 1, -1)))
     # a nullable production inside an optional group that fails after it (nothing consumed, captures pending)
     gs.append(mk_grammar("x3", [("P0", seq(grp("opt", seq(cap("L", "node", {"op": "prod", "p": "P1"}), lit("!"))), cap("V", "string", ref("Ident"))), [F("L", "node", "P1"), F("V", "string")]),
                                  ("P1", grp("star", cap("M", "strings", lit("("))), [F("M", "strings")])], ks=(0, 1, 2, -1)))
@@ -275,7 +282,8 @@ def curated_core(rng, with_tokens=True):
     # explicit EOF
     gs.append(mk_grammar("e0", [("P0", seq(grp("plus", cap("W", "strings", ref("Ident"))), grp("once", alt(lit(";"), ref("EOF")))), [F("W", "strings")])], trailing=True))
     gs.append(mk_grammar("e1", [("P0", seq(cap("A", "string", ref("Ident")), grp("opt", cap("B", "strings", ref("Int"))), grp("once", alt(seq(lit("!"), ref("EOF")), ref("EOF"), lit("(")))), [F("A", "string"), F("B", "strings")])], trailing=True, ks=(0, 1, -1)))
-    extra_inputs = {"x9": ["x y !", "x ! y !", "x ! y", "7 ! 7 x", "x ! 7 y ! ( z", "x"], "x10": ["x y !", "x ! y", "x", "7 7 !", "x ! x !"],
+    extra_inputs = {"x11": ["#c# y", "#c# x y", " y", "#c#y !", "#c# 7", "#a# #b# y", "y"], "x12": ["#c# y", "#c# x y", "y #c# ( z", "#c# x #d# z"],
+                    "x9": ["x y !", "x ! y !", "x ! y", "7 ! 7 x", "x ! 7 y ! ( z", "x"], "x10": ["x y !", "x ! y", "x", "7 7 !", "x ! x !"],
                     "x5": ["A b", "a B Xy", "XY xy A", "A Q", "b q", "B b a A"], "x6": ["a b )", "a b (", "a b", "a b ( )"],
                     "x7": ["a b ) x", "a b ( x", "a b", "a b ) ( )", "x"], "x8": ["#k# x #c#", "x", "#k#", "( #k# x", " #a##b# x ( #c#"]}
     for g in gs:
@@ -579,11 +587,12 @@ def run(pid, tier, args):
                                             {"property": pid, "kind": "parse", "case": dict(single_case(g, (g["id"], a, i)), ks=[a, b]), "readable": describe(g, (g["id"], a, i)), "real": ra, "real_stronger": rb})
             if not args.replay:
                 # lookaheads around and beyond MaxLookahead: a failing alternative that consumes 100001 tokens
-                bigs = {"flat": {}, "deep": {}}
+                bigs = {"flat": {}, "deep": {}, "production": {}}
                 for line in vlib.vh(vhbin, ["lookahead-big", "100001"], timeout=1800).splitlines():
                     shape_, kk, oc = line.split("\t", 2)
                     bigs[shape_][int(kk)] = oc
-                what = {"flat": "grammar `( @\"x\"+ \"!\" | @\"x\"+ \"?\" )` on 100001 x then ?", "deep": "grammar `\"(\" @@ \")\" | @Ident` on 100009 nested parentheses"}
+                what = {"flat": "grammar `( @\"x\"+ \"!\" | @\"x\"+ \"?\" )` on 100001 x then ?", "deep": "grammar `\"(\" @@ \")\" | @Ident` on 100009 nested parentheses",
+                        "production": "a parser for the production `@Ident \"(\" \"*\" \")\" | @Ident \"(\" \")\"` (ParserForProduction) on `f ( )`"}
                 for shape_, big in bigs.items():
                     for a, ra in big.items():
                         for b, rb in big.items():
@@ -597,6 +606,19 @@ def run(pid, tier, args):
             v.notes["successful_pairs_checked"] = nrel
             if nrel < 100 and not args.replay:
                 raise Infra("vacuity: only %d (success, stronger lookahead) pairs" % nrel)
+        if pid == "C01" and not args.replay:
+            # the commit rule at its far end: a first alternative that fails after 100001 tokens is abandoned exactly when the
+            # lookahead is unlimited or at least that long (MaxLookahead = 99999 is NOT)
+            for line in vlib.vh(vhbin, ["lookahead-big", "100001"], timeout=1800).splitlines():
+                shape_, kk, oc = line.split("\t", 2)
+                if shape_ != "flat":
+                    continue
+                kk = int(kk)
+                want_ok = kk < 0 or kk >= 100001
+                if oc.startswith("ok") != want_ok:
+                    v.violation("grammar `( @\"x\"+ \"!\" | @\"x\"+ \"?\" )` on 100001 x then ?: lookahead %d gives %s, the meaning %s" % (kk, oc[:80], "accepts" if want_ok else "rejects (the failed attempt ran past the lookahead)"),
+                                {"property": pid, "kind": "lookahead-big", "k": kk, "real": oc[:200]})
+                v.validated(1)
         if pid == "C10":
             ngroups = 0
             for g in gs:
